@@ -411,6 +411,39 @@ class Body:
             self._prov[local] = out
         return out
 
+    def call_sites(self, op, seen=None):
+        """Call terminators (block indices) whose results may flow into the operand (flow-insensitive, through
+        copies, refs, field reads and value-preserving wrappers); identifies *which* call site a value comes from."""
+        if seen is None:
+            seen = set()
+        out = set()
+        if "p" not in op:
+            return out
+        local = op["p"][0]
+        if local in seen:
+            return out
+        seen.add(local)
+        for d in self.defs().get(local, []):
+            if d[0] == "assign":
+                rv = d[3]
+                k = rv.get("k")
+                if k in ("use", "cast", "repeat"):
+                    out |= self.call_sites(rv["o"], seen)
+                elif k == "ref":
+                    out |= self.call_sites({"p": rv["p"]}, seen)
+                elif k == "agg":
+                    for o in rv.get("ops", []):
+                        out |= self.call_sites(o, seen)
+                elif k == "bin":
+                    out |= self.call_sites(rv["a"], seen) | self.call_sites(rv["b"], seen)
+            else:
+                c = d[2]
+                out.add(c.bb)
+                if re.search(r"(Try::branch|::unwrap|::expect|::clone|::to_owned|Deref::deref|::into|::from|::as_ref|::map_err|::ok_or|::ok_or_else)$", c.callee):
+                    for a in c.args[:1]:
+                        out |= self.call_sites(a, seen)
+        return out
+
     def rvalue_sources(self, rv, seen):
         out = set()
         k = rv.get("k")
